@@ -319,7 +319,7 @@ def gen_cases(ctx, quick):
 
 # ----------------------------------------------------------------------------- entry points
 def build(ctx):
-    binary, log = ctx.build_harness("c05_mds.cpp", name=sp.harness_name("c05_mds"), extra=sp.header_flag())
+    binary, log = ctx.build_harness("c05_mds.cpp", name=sp.harness_name("c05_mds"), flags=sp.FLAGS, extra=sp.header_flag())
     if not binary:
         ctx.broken("harness-build", "harness c05_mds.cpp", "harness does not compile against /repo: " + log[-800:])
     return binary
@@ -360,6 +360,8 @@ def correspond(ctx):
                        "judged in exact rational arithmetic by model_c05; non-trivial = N >= 3; distinct by case text"
                        % (32 if quick else 64))
     ctx.assumptions += [
+        "harness compiled at -O0 -g1 (ASan+UBSan on) instead of -O1 -g: the all-methods translation unit needs 2-3 min and "
+        "several GB otherwise",
         "eigensolver (Eigen SelfAdjointEigenSolver / randomized range finder) enters the theorems as a contract "
         "(IsTopEig); its outputs are certificate-checked per run in exact rationals: residual, orthonormality <= 2^-30 "
         "relative, extremality by exact LDL^T inertia of B - (lambda_min +- 2^-30 scale) I (sound at zero tolerance: "
